@@ -189,17 +189,7 @@ fn gen_history(rng: &mut Prng, prop: &str, thorough: bool) -> History {
         } else if hit(10) {
             ops.push(Op::Del(gen_key(rng, space)));
         } else if hit(6) {
-            let n = rng.range(1, 6);
-            let es = (0..n)
-                .map(|_| {
-                    let k = gen_key(rng, space);
-                    if rng.chance(1, 4) {
-                        (k, None)
-                    } else {
-                        (k, Some(gen_val(rng, false)))
-                    }
-                })
-                .collect();
+            let es = crate::dbsim::gen_batch_ops(rng, space, 1, 6);
             ops.push(Op::Batch(es));
         } else if hit(14) {
             ops.push(Op::Get(gen_key(rng, space)));
